@@ -9,5 +9,9 @@ GROUPS = [
  _p("tpdo_tx", "COTPdoTx", 1, _PDO, {"C12": "quick", "C09": "quick", "C01": "quick"}),
  _p("rpdo_rx", "CORPdoRx/COSyncRx", 2, _PDO, {"C13": "quick", "C01": "quick"}),
  _p("rpdo_check", "CORPdoCheck", 3, _PDO, {"C13": "quick", "C01": "quick"}),
+ _p("tpdo_tmr_inhibit", "COTPdoTmrInhibit", 5, _PDO, {"C12": "quick", "C01": "quick"}),
+ _p("tpdo_tmr_event", "COTPdoTmrEvent", 6, _PDO, {"C12": "quick", "C01": "quick"}),
+ _p("sync_tpdo", "COSyncUpdate/COSyncHandler", 7, _PDO, {"C12": "quick", "C16": "quick", "C01": "quick"}),
+ _p("sync_update", "COSyncUpdate", 8, _PDO, {"C16": "quick", "C01": "quick"}),
  _p("sync_handler_rx", "COSyncHandler", 4, _PDO, {"C13": "quick", "C16": "quick", "C01": "quick"}),
 ]
